@@ -12,10 +12,10 @@ cd $WT || exit 2
 echo "== suite with change" >> $LOG
 cargo test --workspace --offline --no-fail-fast 2>&1 | grep -E "^test result|FAILED|failed|^error" >> $LOG
 echo "== demo with change (must fail)" >> $LOG
-sh $OUT/demo/run.sh >> $LOG.demo1 2>&1; echo "rc=$?" >> $LOG; grep -E "^test result|panicked" $LOG.demo1 | head -5 >> $LOG
+bash $OUT/demo/run.sh >> $LOG.demo1 2>&1; echo "rc=$?" >> $LOG; grep -E "^test result|panicked" $LOG.demo1 | head -5 >> $LOG
 git apply -R $OUT/patch.diff || { echo "cannot revert patch" >> $LOG; exit 2; }
 echo "== demo without change (must pass)" >> $LOG
-sh $OUT/demo/run.sh >> $LOG.demo2 2>&1; echo "rc=$?" >> $LOG; grep -E "^test result|panicked" $LOG.demo2 | head -5 >> $LOG
+bash $OUT/demo/run.sh >> $LOG.demo2 2>&1; echo "rc=$?" >> $LOG; grep -E "^test result|panicked" $LOG.demo2 | head -5 >> $LOG
 git apply $OUT/patch.diff || { echo "cannot re-apply patch" >> $LOG; exit 2; }
 echo "== check $PROP against the changed tree" >> $LOG
 cd /verif
